@@ -282,14 +282,33 @@ def countedFor (s : VoteSet) (k : Nat) : Nat :=
   | some bv => sumPow s.vals bv.votes
   | none => 0
 
+/-- `v` passes every check of `addVote` before `addVerifiedVote` is called: index in range,
+address of that validator, step, not already known (`getVote`), valid signature. -/
+def Verified (s : VoteSet) (v : Vote) : Prop :=
+  0 ≤ v.idx ∧ v.height = s.height ∧ v.round = s.round ∧ v.type = s.type ∧
+  (∃ p, s.vals[v.idx.toNat]? = some (v.addr, p)) ∧
+  getVote s v.idx.toNat v.block.key = none ∧ v.sigOk = true
+
+/-- Some peer claimed (`SetPeerMaj23`) a block with key `k`. -/
+def PeerClaimed (s : VoteSet) (k : Nat) : Prop := ∃ p b, alGet p s.peerMaj23s = some b ∧ b.key = k
+
+/-- States reachable from a fresh vote set by any sequence of `AddVote` / `SetPeerMaj23`. -/
+def Reachable (s : VoteSet) : Prop :=
+  ∃ h r t vals evs, s = run (newVoteSet h r t vals) evs
+
 /-- One `AddVote` call of a history: the state it was applied to, the vote, what it returned. -/
 structure LogEntry where
   pre : VoteSet
   vote : Vote
   out : Outcome
 
+/-- the `added` result of `AddVote` -/
+def Outcome.added : Outcome → Bool
+  | .ret a _ => a
+  | .panic _ => false
+
 /-- `AddVote` reported `added = true` (with or without the conflict error). -/
-def LogEntry.added (e : LogEntry) : Prop := ∃ err, e.out = .ret true err
+def LogEntry.added (e : LogEntry) : Prop := e.out.added = true
 
 /-- The vote was not reported as added but replaced `votes[i]`: a conflicting vote
 for the block that already has the +2/3 majority, no peer having claimed that block. -/
